@@ -191,6 +191,9 @@ func c07Units(tier string) []*Unit {
 			us = append(us, u)
 		}
 	}
+	if tier == "thorough" {
+		us = append(us, taskgraphUnits("taskgraph3", []int{1}, 2)...)
+	}
 	// cyclic references: must end with 204 (or 201 wrapping it), not hang. One default schedule
 	// plus the bound-1 schedules (1000 nested calls per execution).
 	cyc := map[string]*Prog{
